@@ -32,8 +32,7 @@ theorem reference_expect_table_is_the_source (first : String) (par : Option Stri
 /-- what the table function passes to the masks it reads as parameters: every mask gets the genome option -/
 theorem reference_expect_mask_arguments :
     Generated.src_reference_expect_calls =
-      ["chr_x_filter(diploid_parx_genome)", "chr_x_filter(diploid_parx_genome)", "chr_y_filter(diploid_parx_genome)",
-       "chr_y_filter(diploid_parx_genome)", "pary_filter(diploid_parx_genome)", "pary_filter(diploid_parx_genome)"] ∧
+      ["chr_x_filter(diploid_parx_genome)", "chr_y_filter(diploid_parx_genome)", "pary_filter(diploid_parx_genome)"] ∧
     Generated.src_chr_x_filter_calls = ["parx_filter(genome_build=diploid_parx_genome)"] ∧
     Generated.src_chr_y_filter_calls = ["pary_filter(genome_build=diploid_parx_genome)"] := by decide
 
